@@ -19,14 +19,14 @@ META = {
     "json.loads(output) equals the value (type-strict).  xmlattr: keys and values = all strings of <= 3 characters over "
     "{a, space, /, >, =, TAB, LF, FF, \", ', <, &} (+ CR, VT, NBSP, empty): the produced text is parsed with the HTML "
     "attribute-name/value states and must yield exactly the given pairs with escaped values; keys containing an "
-    "attribute-name terminator (ASCII whitespace, /, >, =) must raise ValueError.  urlize: all sequences of <= 3 words "
+    "attribute-name terminator (ASCII whitespace, /, >, =) must raise ValueError.  urlize: all sequences of <= 3 (thorough 4) words "
     "from a menu of URL-ish / e-mail-ish / punctuation / markup fragments x trim limit x rel x target x nofollow x extra "
     "schemes: output must be text without < > \" ' interleaved with well-formed <a href=... [rel] [target]> anchors whose "
     "attribute values are quoted, escaped, whitespace-free (href), of an allowed scheme, and which together with the "
     "text reproduce the input.  escape/e equal MarkupSafe escaping and forceescape escapes the markup form.  indent, "
     "replace, join, format, truncate, wordwrap with a Markup receiver and plain-string arguments carrying a marker tag "
     "never emit the marker unescaped under autoescape.",
-    "note": "Bounded: value depth 2, string length 3, 3 words; autoescape on and off, template rendering and "
+    "note": "Bounded: value depth 2, string length 3, 3-4 words; autoescape on and off, template rendering and "
     "Environment.call_filter; Markup *arguments* / Markup values are trusted by definition and not counted as injection; "
     "the HTML parsing model is the WHATWG tokenizer's attribute states restricted to what the filters may emit "
     "(anything else is reported).",
@@ -285,7 +285,7 @@ def xmlattr_dicts(thorough, part, nparts):
                     for v2 in vv:
                         out.append({k1: v1, k2: v2})
     if thorough:
-        for k in filt.strings(XA, 2):
+        for k in filt.strings(XA, 3):
             for v in filt.strings(XA, 2):
                 out.append({k: v})
     return out[part::nparts]
@@ -297,7 +297,7 @@ WORDS = ("http://a.bc", "www.a.bc", "a@b.c", "mailto:a@b.c", "<b>", '"x"', "(htt
 
 def urlize_texts(thorough):
     out = []
-    for n in range(0, 4):
+    for n in range(0, 5 if thorough else 4):
         for ws in itertools.product(WORDS, repeat=n):
             out.append(" ".join(ws))
     for a in WORDS:
@@ -498,7 +498,7 @@ def shard(arg):
                     k = next(iter(d))
                     if len(k) <= 1:
                         p.sig(("xmlattr", repr(d), repr(out)))
-            if len(p.samples) < 1 and len(d) == 2:
+            if len(p.samples) < 1 and len(d) == 2 and not err and "" not in d:
                 p.sample({"filter": "xmlattr", "value": repr(d), "output": repr(three(p, rs[0][0], d)[0])}, cap=1)
         p.count("xmlattr_dicts", len(ds))
     elif fam == "urlize":
@@ -539,7 +539,8 @@ def shard(arg):
                 out, raw, agree, outs = three(p, r, "x" + badscheme + "y " + badscheme + "z")
                 if not agree or out != ("raises", "FilterArgumentError"):
                     viol(p, "C24/urlize/invalid-scheme-accepted", r, badscheme, outs, "invalid scheme prefix accepted")
-        p.count("urlize_texts", len(texts))
+        if part == 0:
+            p.count("urlize_texts", len(texts))
         p.count("urlize_configs", len(cfgs) * 2)
     elif fam == "escape":
         strs = list(filt.strings(ESC_SIGMA, 4 if thorough else 3))[part::nparts]
@@ -695,7 +696,7 @@ def run(ctx: core.Ctx):
                    "values": len(json_values(t))},
         "xmlattr": {"alphabet": list(XA), "extra_key_characters": list(XA_EXTRA), "max_length": 3,
                     "dicts": len(xmlattr_dicts(t, 0, 1))},
-        "urlize": {"words": list(WORDS), "max_words": 3, "texts": len(urlize_texts(t)), "argument_tuples": ncfg + 1},
+        "urlize": {"words": list(WORDS), "max_words": 4 if t else 3, "texts": len(urlize_texts(t)), "argument_tuples": ncfg + 1},
         "escape": {"alphabet": list(ESC_SIGMA), "max_length": 4 if t else 3},
         "safe_receiver": {"receiver_alphabet": list(RECV_SIGMA), "max_fragments": 4 if t else 3,
                           "argument_positions": len(safe_receiver_cases())},
